@@ -107,6 +107,35 @@ def read_latex(s):
     return out
 
 
+def read_siunitx(s, names):
+    """{unit: exponent} of a \\si[]{...} rendering; `names` = the long names that may occur (prefix macros are joined to them).
+    None when the rendering uses something this reader does not know."""
+    import re
+    m = re.fullmatch(r"\\si\[\]\{(.*)\}", s)
+    if not m:
+        return None
+    out, acc, per = {}, "", False
+    last = None
+    for macro, arg in re.findall(r"\\([A-Za-z_0-9]+)(?:\{([^}]*)\})?", m.group(1)):
+        if macro == "per":
+            if acc:
+                return None
+            per = True
+        elif macro in ("squared", "cubed", "tothe"):
+            if last is None or acc:
+                return None
+            e = {"squared": Fraction(2), "cubed": Fraction(3)}.get(macro) or Fraction(arg)
+            out[last] = out[last] * e
+        else:
+            acc += macro
+            if acc in names:
+                out[acc] = out.get(acc, Fraction(0)) + (Fraction(-1) if per else Fraction(1))
+                last, acc, per = acc, "", False
+    if acc:
+        return None
+    return out
+
+
 class Check(Property):
     ID = "C09"
     PROPS_FILE = "PintModel/Props/C09.lean"
@@ -240,7 +269,7 @@ class Check(Property):
         mspec = rng.choice([".2e", ".3e", ".3g", ".1f", "e", ".4g"])
         e1, e2 = rng.sample([10, 20, -5, 3, -12, 0, 7], 2)
         vals = [rng.choice([1.0, 2.0, 1.5, -2.5, 7.25]) * 10.0 ** e1, rng.choice([2.0, 3.0, -1.5, 6.5]) * 10.0 ** e2]
-        for m in (vals[0], np.array(vals), np.array([vals[1], vals[0], 1.0])):
+        for m in (vals[0], np.array(vals), np.array([vals[1], vals[0], 1.0]), np.array([1, 2, 1500]), np.array([-7, 40], dtype=np.int64)):
             q = u.Quantity(m, un)
             try:
                 fq = format(q, mspec + spec)
@@ -306,6 +335,21 @@ class Check(Property):
                 v.append(f"{tag}: {s!r} reads as {got}, the unit is {want}")
         except Exception as exc:  # noqa: BLE001
             v.append(f"{tag}: rendering {s!r} is not readable: {type(exc).__name__}: {exc}")
+        # the siunitx rendering, read with siunitx's default semantics (\\per inverts the NEXT unit only)
+        lx = outs.get("Lx")
+        if lx is not None and before and len(set(before)) == len(before):
+            try:
+                got_lx = read_siunitx(lx, set(before))
+                want_lx = {k: regs.to_frac(e) for k, e in before.items()}
+                if got_lx is None:
+                    split = [k for k in before if "\\" + k not in lx]
+                    if split:
+                        v.append(f"{tag}: [known finding F57] the siunitx rendering {lx!r} does not spell {split[0]!r} (a leading "
+                                 f"prefix-like part of the name is turned into a prefix macro and the rest is not a unit macro)")
+                elif {k: round(float(x), 3) for k, x in got_lx.items()} != {k: round(float(x), 3) for k, x in want_lx.items()}:
+                    v.append(f"{tag}: the siunitx rendering {lx!r} reads as {got_lx}, the unit is {want_lx}")
+            except Exception as exc:  # noqa: BLE001
+                v.append(f"{tag}: siunitx rendering {lx!r} is not readable: {type(exc).__name__}: {exc}")
         # plain-text formats parse back to an equal unit (long names; symbols when they resolve back)
         all_mult = all(u._units[k].is_multiplicative for k in before)
         simple = len(before) == 1 and all(regs.to_frac(e) == 1 for e in before.values())
